@@ -211,11 +211,49 @@ example : EnvOK [.num] [("g0", 0)] [("g0", .num)] ∧ StoreOK exSig [.num] [.num
     | zero => simp at hv hτ; subst hv; subst hτ; exact .num 0
     | succ l => simp at hv
 
-/-- `SitesUnique` is needed in some form: with one site identifier shared by calls of two functions whose `self` types
-differ, a program whose every other clause type-checks can be built; `Agree` rules it out -/
-example : ¬ Agree (calls (.bin .add (.call "f" [] 7) (.call "g" [] 7))) := by
+/-! ## The restrictions of `WellTyped` are forced by the model (concrete runs, checked by evaluation)
+Each program below satisfies every clause of `WellTyped` except the named one, and ends in an error. -/
+
+/-- a function-typed global whose closure captured a temporary of its initialiser: `initGlobals` drops the temporaries,
+the captured location then holds the global itself -/
+def exBadGlobalClosure : Prog :=
+  { globals := [("g", .letE "y" (.lit 1) (.lam ["x"] (.bin .add (.var "x") (.var "y"))))], fns := [],
+    dsp := { name := "dsp", params := [], selfShape := none, body := .app (.var "g") [.lit 2] } }
+
+example : HasType [] [] none (.letE "y" (.lit 1) (.lam ["x"] (.bin .add (.var "x") (.var "y")))) (.fn [.num] .num) :=
+  .letE .lit (.lam (τs := [.num]) rfl (by core_typing))
+example : HasType [] [("g", .fn [.num] .num)] none exBadGlobalClosure.dsp.body .num := by
+  unfold exBadGlobalClosure; core_typing
+example (sr : UInt64) : ∃ m, Machine.init 10 exBadGlobalClosure sr = .ok m ∧
+    Machine.step 10 exBadGlobalClosure sr m [] = .error (.type "binary operand") := ⟨_, rfl, rfl⟩
+
+/-- a global initialiser calling a function that reads a later global -/
+def exBadGlobalCall : Prog :=
+  { globals := [("a", .call "f" [] 0), ("b", .lit 1)],
+    fns := [{ name := "f", params := [], selfShape := none, body := .var "b" }],
+    dsp := { name := "dsp", params := [], selfShape := none, body := .var "a" } }
+
+example : HasType [("f", [], .num)] [] none (.call "f" [] 0) .num := by core_typing
+example : HasType [("f", [], .num)] [("b", .num), ("a", .num)] none (.var "b") .num := by core_typing
+example (sr : UInt64) : Machine.init 10 exBadGlobalCall sr = .error (.unbound "b") := rfl
+
+/-- one site identifier shared by calls of two functions with different `self` types (`Agree` fails) -/
+def exBadSites : Prog :=
+  { globals := [],
+    fns := [{ name := "f", params := [], selfShape := some .num, body := .self },
+            { name := "g", params := [], selfShape := some (.tup [.num, .num]),
+              body := .letTup ["a", "b"] .self (.tup [.var "a", .var "b"]) }],
+    dsp := { name := "dsp", params := [], selfShape := none, body := .letE "u" (.call "f" [] 7) (.call "g" [] 7) } }
+
+example : HasType [("f", [], .num), ("g", [], .tup [.num, .num])] [] none exBadSites.dsp.body (.tup [.num, .num]) := by
+  unfold exBadSites; core_typing
+example : HasType [("f", [], .num), ("g", [], .tup [.num, .num])] [] (some (.tup [.num, .num]))
+    (.letTup ["a", "b"] .self (.tup [.var "a", .var "b"])) (.tup [.num, .num]) := by core_typing
+example : ¬ Agree (calls exBadSites.dsp.body) := by
   intro h
-  have := h 7 "f" "g" (by simp [calls, callsL]) (by simp [calls, callsL])
+  have := h 7 "f" "g" (by simp [exBadSites, calls, callsL]) (by simp [exBadSites, calls, callsL])
   exact absurd this (by decide)
+example (sr : UInt64) : ∃ m, Machine.init 10 exBadSites sr = .ok m ∧
+    Machine.step 10 exBadSites sr m [] = .error (.type "tuple pattern") := ⟨_, rfl, rfl⟩
 
 end Mimium.Core
